@@ -106,7 +106,11 @@ func initDNS(
 		return fmt.Errorf("init querylog: %w", err)
 	}
 
-	globalContext.filters, err = filtering.New(config.Filtering, nil)
+	// Give the filtering module a configuration of its own.  config.Filtering
+	// is where the module writes its settings back each time the configuration
+	// file is saved, and it is read there with no regard to the module's locks.
+	filteringConf := *config.Filtering
+	globalContext.filters, err = filtering.New(&filteringConf, nil)
 	if err != nil {
 		// Don't wrap the error, since it's informative enough as is.
 		return err
